@@ -425,7 +425,24 @@ func c11big(c *core.Ctx) {
 		return
 	}
 	for phase := 0; phase < 5; phase++ {
-		switch r.Intn(7) {
+		switch r.Intn(8) {
+		case 7:
+			// a full sweep (every lookup, Len, Range), then exactly 256 or 65536 successful
+			// changes with no observation in between, one more change, and (below) a sweep again
+			m := 256
+			if r.Chance(1, 6) {
+				m = 65536
+			}
+			hist = append(hist, fmt.Sprintf("%d changes of one pair without an observation", m))
+			k := n + 50
+			for i := 0; i < m; i++ {
+				if i%2 == 0 {
+					b.Add(k, "storm-pair")
+				} else {
+					b.RemoveForward(k)
+				}
+			}
+			add(n+51, "after-storm")
 		case 6:
 			// a storm of Clears: Clear while big, then 300 rounds of (Add a few, Clear)
 			hist = append(hist, "Clear x 300 with small refills")
